@@ -142,6 +142,8 @@ def order_case(part, op, ms, H):
                            {'law': 'order', 'op': op, 'operands': list(ms)}, sum(irsem.size_nodes(x) for x in ms))
             return
     part.keys.add(core.h64(('o', op, repr(ms))))
+    if len(part.samples) < 2 and first:
+        part.samples.append({'op': op, 'operands': [irsem.show(x) for x in ms], 'variants': len(variants), 'canonical form': first[1][0]})
     part.outcomes.add(core.h64(first[1][0]) if first else 0)
 
 
@@ -279,7 +281,6 @@ def run(tier, seed):
             part.keys.add(core.h64(('s', what, l.split('\t')[0], l.count('\t') and l.split('\t')[1])))
     part.counters['seed_lines_per_seed'] = nlines
     part.counters['hash_seeds'] = len(seeds)
-    part.samples.append({'order': {'op': '+', 'operands': ['a:8', '(- a:8)', '@8[..]', 'ds:@8[..]']}})
     part.samples.append({'seed_job': 'lift', 'line': res[('lift', seeds[0])][0]})
     rule = ('(a) idempotence: every tree of E1/T/N (+E2 reduced) is simplified, the result is rebuilt as fresh objects (no simp memo) and '
             'simplified again: identical tree and string required. (b) order: for each of + * ^ & | and each multiset of 2..4 operands from '
